@@ -66,6 +66,10 @@ def cases(tier, seed):
                 for fi in range(nfiles):
                     for m in ("collect_paths", "next_paths"):
                         yield {"kind": "chain", "chain": list(chain), "suffix": s, "file": fi, "method": m}
+    for chain in itertools.product(range(len(FILTERS)), repeat=2):
+        for fi in (0, 4):
+            for dq in ([";", '"'], [",", "'"], ["|", "'"]):
+                yield {"kind": "chain", "chain": list(chain), "suffix": 1, "file": fi, "method": "collect_paths", "dialect": dq}
     maxh = 3 if tier == "quick" else 4
     for n in range(1, maxh + 1):
         for h in itertools.product(range(len(RFILES)), repeat=n):
@@ -82,6 +86,13 @@ def cases(tier, seed):
 
 def sample(case):
     return case
+
+
+def _read_csv(path, delimiter, quotechar):
+    import csv
+
+    with open(path, "r", encoding="utf-8", newline="") as f:
+        return [row for row in csv.reader(f, delimiter=delimiter, quotechar=quotechar)]
 
 
 def _alone(text, policy=("collect",)):
@@ -108,8 +119,11 @@ def run_case(case):
         for k, i in enumerate(chain):
             sm = " source-mode: preceding" if k >= s else ""
             members.append(f"~ id: m{k}{sm} ~ $[{FILTERS[i][0]}][{FILTERS[i][1]}]")
-        cp = groups.fresh(policy="collect")
-        src = sandbox.write_csv(rows)
+        dl, qc = case.get("dialect") or [",", '"']
+        if case.get("dialect"):
+            cstr += f" delimiter={dl!r} quotechar={qc!r}"
+        cp = groups.fresh(policy="collect", delimiter=dl, quotechar=qc)
+        src = sandbox.write_csv(rows, delimiter=dl, quotechar=qc)
         groups.register(cp, src, members)
         origin = cp.file_manager.get_named_file("d")
         # composition model
@@ -121,11 +135,11 @@ def run_case(case):
                 if not exp[k - 1]:
                     ok = False
                     break
-                inp = sandbox.write_csv(exp[k - 1])
+                inp = sandbox.write_csv(exp[k - 1], delimiter=dl, quotechar=qc)
             else:
                 inp = origin
             inputs.append(inp)
-            a = _alone(f"${inp}[{FILTERS[i][0]}][{FILTERS[i][1]}]")
+            a = run.run_csvpath(f"${inp}[{FILTERS[i][0]}][{FILTERS[i][1]}]", "collect", policy=("collect",), delimiter=dl, quotechar=qc)
             exp.append(a["lines"])
         if not ok:
             return {"viol": [], "states": [], "transitions": 0, "nontrivial": False, "outcome": "not-asserted", "fingerprint": "na", "extra": {"not_asserted_empty_predecessor": 1}}
@@ -140,7 +154,7 @@ def run_case(case):
         for k in range(len(chain)):
             mdir = os.path.join(rdirs[0], f"m{k}") if rdirs else None
             dp = os.path.join(mdir, "data.csv") if mdir else None
-            got = refarchive.read_csv(dp) if dp and os.path.isfile(dp) else []
+            got = _read_csv(dp, dl, qc) if dp and os.path.isfile(dp) else []
             if got != exp[k]:
                 bad(f"member {k} ({'preceding' if k >= s else 'origin'}): data.csv != composition model", got, exp[k], cstr)
             if k < len(results):
